@@ -11,8 +11,8 @@ rng     a random.Random driving the style choices; None = the canonical plain st
 style   a Style (probabilities of each variation); default Style().
 
 Style variations (all documented spellings or spellings the docstrings show in examples):
-  * whitespace runs (blank, tab, newline) between tag name and arguments, between arguments and
-    before the tag end;
+  * whitespace runs (blank, tab, newline; rarely CR LF) between tag name and arguments, between
+    arguments and before the tag end;
   * name reference as ``x`` / ``name=x`` / ``name="x"`` (``type=`` for raise);
     expression as ``expr="…"`` / the bare ``"…"`` shorthand (HTML and SSI only, see DESIGN C07
     scoping decision) / ``expr=…`` unquoted when the text has no blank, quote, '=' or tag-end char;
@@ -69,6 +69,7 @@ class Style:
     def __init__(self, **kw):
         self.ws_multi = 0.25          # a whitespace run instead of a single blank
         self.ws_trail = 0.15          # blanks before the tag end
+        self.ws_crlf = 0.02           # a CR LF line break inside a tag (Windows line ends)
         self.name_attr = 0.35         # name=x / name="x" instead of bare x
         self.quote_bare = 0.4         # quote a value that could go unquoted
         self.expr_short = 0.35        # "…" instead of expr="…" (HTML/SSI)
@@ -160,6 +161,8 @@ class _Printer:
         return hit
 
     def ws(self):
+        if self.p('ws_crlf'):
+            return self.rng.choice(('\r\n', ' \r\n  ', '\r\n\t'))
         if self.p('ws_multi'):
             return self.rng.choice(('  ', '\t', '\n', ' \n  ', ' \t ', '\n\n'))
         return ' '
@@ -333,7 +336,7 @@ class _Printer:
         if ref is None or ref.kind != 'name' or not self.p('else_arg'):
             return ''
         rest = start_args[len(ref_item):]
-        if start_args.startswith(ref_item) and (rest == '' or rest[0] in ' \t\n'):
+        if start_args.startswith(ref_item) and (rest == '' or rest[0] <= ' '):
             return ref_item
         return ''
 
